@@ -39,7 +39,7 @@ def _exc_name(e):
 
 def _interesting_ints(rng, n_random):
     vals = {0, 1, -1, 2, -2, 31, 32, 63, 64, -64, -65, 127, 128, -128, -129, 255, 256}
-    for k in (7, 8, 14, 15, 16, 21, 28, 31, 32, 35, 42, 49, 56, 63, 64):
+    for k in range(0, 66):        # every power of two: the LEB128 and fixed-width forms change length at different ones
         for d in (-1, 0, 1):
             vals.add(2**k + d)
             vals.add(-(2**k) + d)
